@@ -7,6 +7,10 @@
      gn   cobol_parser.normalize_picture(s)                  (0 elems) | (1 exn)
      gc1  JSONSchemaMaker.json_type on a DISPLAY node with picture s: conversion = decimal   (0 b) | (1 exn)
      gc2  JSONSchemaMakerExtendedVocabulary.json_type: type = decimal                        (0 b) | (1 exn)
+     ent  (optional, stream entry) (sep g d gconv dp2 gc1_2): the picture s written in the entry  05 X PIC s<sep> USAGE DISPLAY.
+          sep = 0 nothing | 44 comma | 59 semicolon directly after the picture; g = clauses[picture] of the DDE the generator side
+          built ((0 text) | (1 exn)); d = Representation.parse(cobol text of the emitted schema) in the form of dp; gconv = the
+          emitted schema says conversion decimal; dp2 / gc1_2 = dp / gc1 observed directly on the string s followed by sep
    elems = list of dicts, a dict = list of (key text) with key 0 sign, 1 char, 2 decimal, 3 digit, 4 repeat.
    good  = the property on the observation, using Spec/Picture.v only;
    agree = observation equals the model (Model/Picture.v), compared in wire form. *)
@@ -79,13 +83,30 @@ Definition judge (c : sx) : sx :=
         end) in
   (* the two sides accept the same strings *)
   let good_same := Bool.eqb (o_ok dn) (o_ok gn) in
-  let good := good_dn && good_dp && good_gn && good_same in
+  (* through an entry both sides take the same picture string and treat it as they treat that string alone: either both take s
+     (then d = dp and gconv = gc1, the direct observations on s) or both take s followed by the separator (d = dp2, gconv = gc1_2) *)
+  let ent := nth_sx 7 c in
+  let has_ent := match as_list ent with [] => false | _ => true end in
+  let sep := as_Z (nth_sx 0 ent) in
+  let e_g := nth_sx 1 ent in
+  let e_d := nth_sx 2 ent in
+  let e_conv := nth_sx 3 ent in
+  let s2 := if sep =? 0 then s else s ++ [Z.to_N sep] in
+  let took_s := sx_eqb e_g (L [A 0; of_Ns s]) in
+  let took_s2 := sx_eqb e_g (L [A 0; of_Ns s2]) in
+  let good_ent :=
+    negb has_ent
+    || (took_s && sx_eqb e_d dp && sx_eqb e_conv gc1)
+    || (took_s2 && sx_eqb e_d (nth_sx 4 ent) && sx_eqb e_conv (nth_sx 5 ent))
+    || (negb (o_ok e_g) && negb (o_ok e_d) && negb (o_ok e_conv)) in
+  let agree_ent := negb has_ent || took_s2 || negb (o_ok e_g) in
+  let good := good_dn && good_dp && good_gn && good_same && good_ent in
   (* ---- correspondence with the model ---- *)
   let m_dn := sx_opt_res sx_elems (dec_normalize s) in
   let m_dp := if applicable then sx_opt_res sx_parsed (dec_parse s) else L [A 2] in
   let m_gn := sx_opt_res sx_elems (gen_normalize s) in
   let m_gc := L [A 0; of_bool (gen_numeric s)] in
-  let agree := sx_eqb dn m_dn && sx_eqb dp m_dp && sx_eqb gn m_gn && sx_eqb gc1 m_gc && sx_eqb gc2 m_gc in
+  let agree := sx_eqb dn m_dn && sx_eqb dp m_dp && sx_eqb gn m_gn && sx_eqb gc1 m_gc && sx_eqb gc2 m_gc && agree_ent in
   let known := match known_code s with Some k => Some (Z.of_N k) | None => None end in
   let branch :=
     match dec_normalize s, gen_normalize s with
